@@ -790,7 +790,7 @@ func runHistory(t testing.TB, m *mon.M, r *rand.Rand, idx, blocks int) {
 	fund := new(big.Int).Mul(big.NewInt(params.Ether), big.NewInt(1e12))
 	n, err := hnet.New(hnet.Options{GenAllocs: w.GenAllocs(fund), QuaiCoinbase: w.Quai[0].Addr, QiCoinbase: w.Qi[0].Addr, MinerPreference: pref})
 	if err != nil {
-		m.Violation("harness-start", err.Error(), nil)
+		m.Inconclusive("harness did not start: " + err.Error())
 		return
 	}
 	defer n.Stop()
